@@ -276,6 +276,21 @@ func (sc *specCtx) importedPkg(name string) *types.Package {
 	if sc.pkg == nil {
 		return nil
 	}
+	// import aliases of the package's files (e.g. red "github.com/go-redis/redis/v8")
+	if pp := sc.x.pkgs[sc.pkg.Pkg.Path()]; pp != nil {
+		for _, f := range pp.Syntax {
+			for _, is := range f.Imports {
+				if is.Name != nil && is.Name.Name == name {
+					path, _ := strconv.Unquote(is.Path.Value)
+					for _, imp := range sc.pkg.Pkg.Imports() {
+						if imp.Path() == path {
+							return imp
+						}
+					}
+				}
+			}
+		}
+	}
 	for _, imp := range sc.pkg.Pkg.Imports() {
 		if imp.Name() == name {
 			return imp
